@@ -234,6 +234,9 @@ func runC16CLI(c *C16CLI, o *Outcome) *Outcome {
 			if strings.Contains(out, "cleared successfully") {
 				m = m[:0]
 				intact = true
+				if parsed && doc.MaxSize > 0 {
+					maxInForce = doc.MaxSize // --clear loads the file first and so adopts a positive stored maximum
+				}
 				if !parsed || len(doc.Entries) != 0 {
 					return fail("clear", "step %d: history --clear reported success but the file still holds entries", i)
 				}
